@@ -2090,10 +2090,13 @@ func (l *Loader) loadByContext(ctx context.Context, source DataSource, fetchItem
 		res.singleFlightStats.shared = shared
 	}
 
+	verifPoint("sfs.loaded", item.SFKey, verifBool(shared))
 	if shared {
 		select {
 		case <-item.loaded:
+			verifPoint("sfs.woke", item.SFKey, 0)
 		case <-ctx.Done():
+			verifPoint("sfs.woke", item.SFKey, 1)
 			return ctx.Err()
 		}
 
